@@ -68,8 +68,15 @@ def needleman_wunsch(s1, s2, window=None, max_dist=None,
     """
     if substitution is None:
         substitution = _default_substitution_fn
+    # The border represents leading gaps and thus has to use the gap cost of the substitution function
+    symbols = list(s1[:1]) + list(s2[:1])
+    gap = substitution(symbols[0], symbols[0])[1] if len(symbols) > 0 else 1
+
+    def border(ri, ci):
+        return gap * _needleman_wunsch_border(ri, ci)
+
     value, scores, paths = dp(s1, s2,
-                       fn=substitution, border=_needleman_wunsch_border,
+                       fn=substitution, border=border,
                        penalty=0, window=window, max_dist=max_dist,
                        max_step=max_step, max_length_diff=max_length_diff, psi=psi)
     return -value, -scores, paths
